@@ -24,6 +24,9 @@ Decides:
                     would compare the NEXT item with the remaining aliases and swallow a positional that happens to spell one.
  D both forks      ParseOrElse evaluates BOTH alternatives on forks before this_or_that_picks_first chooses (no early adoption of the
                     first success): the deeper path - the subcommand - can only win if it was tried (shared with C07).
+ D forkers         pass-through wrappers (hide, group_help, map ..) do not fork the state: a hidden command that was entered hands its depth on.
+ L final first     run_subparser hands an inner final answer (Message::ParseFailure: a subcommand's output or rendered error) on BEFORE looking
+                    for its own help/version flag: `cmd --version` with a version only on the parent stays the subcommand's failure.
 Does not decide: acceptance of whole subcommand lines."""
 import re
 from core import *
